@@ -2018,3 +2018,183 @@ _run_before_precheck_case = run
 def run(chk):       # noqa: F811
     _run_before_precheck_case(chk)
     rule_precheck_and_case(chk)
+
+
+# ---------------------------------------------------------------------------------------------------------------
+# C13.config-wiring (round 6): a configuration slot is not fed from the resource constant that belongs to ANOTHER slot.
+# For every registered configuration class and slot wired from `Resource.Attr`: if Attr is named for a different slot of the
+# same configuration while the resource class also defines the constant named for this slot, with a different value, the
+# wiring is crossed (forbidden_suffix_markers <- ForbiddenPrefixMarkers).
+
+def rule_config_wiring(chk):
+    ev = Ev()
+    idx = ev.idx
+    chk.rule('C13.config-wiring', 'a configuration slot is wired from the resource constant named for it, not from another slot\'s constant',
+             floor=10, control=True)
+
+    def norm(x):
+        return x.replace('_', '').lower()
+
+    def crossed(slot_name, origin_attr, all_slots, res_vals, value):
+        """-> name of the constant that should have been used, or None"""
+        if norm(origin_attr) == norm(slot_name):
+            return None
+        if norm(origin_attr) not in {norm(s) for s in all_slots if s != slot_name}:
+            return None
+        own = [a for a in res_vals if norm(a) == norm(slot_name)]
+        if own and res_vals[own[0]] != value:
+            return own[0]
+        return None
+    seen = set()
+    for r in registrations(ev, SEQ_RECOGNIZER):
+        e = r.args.get('extractor')
+        if not (isinstance(e, ast.Call) and e.args and isinstance(e.args[0], ast.Call)):
+            continue
+        ccls = idx.resolve_class(r.mod, e.args[0].func)
+        if ccls is None or ccls.qual in seen:
+            continue
+        seen.add(ccls.qual)
+        chk.consulted(ccls.mod.path)
+        slots = []
+        for k in idx.mro(ccls):
+            if not k.mod.name.startswith('recognizers_'):
+                continue
+            for name, fn in k.methods.items():
+                if not name.startswith('__') and '#' not in name and name not in slots \
+                        and any(isinstance(d, ast.Name) and d.id == 'property' for d in fn.decorator_list):
+                    slots.append(name)
+        for s_ in sorted(slots):
+            try:
+                sl = slot(ev, ccls, s_)
+            except AnalysisError:
+                continue
+            inner = strip_safe_regexp(sl.expr)[0] if sl.expr is not None else None
+            if not (isinstance(inner, ast.Attribute) and isinstance(inner.value, ast.Name)) or not isinstance(sl.value, (str, list)):
+                continue
+            rc = idx.resolve_class(sl.cls.mod, inner.value)
+            if rc is None:
+                continue
+            try:
+                res_vals = {a: v for a, v in ev.R.values(rc).items() if isinstance(v, (str, list))}
+            except AnalysisError:
+                continue
+            want = crossed(s_, inner.attr, slots, res_vals, sl.value)
+            chk.judge(want is None, 'C13.config-wiring', sl.cls.mod.path, '%s.%s' % (ccls.name, s_), 'wired from %s' % sl.origin,
+                      '%s.%s is wired from %s, the constant of another slot, although %s.%s exists and differs (%s vs %s): the extractor '
+                      'applies the wrong character set / pattern for this slot' % (ccls.name, s_, sl.origin, rc.name, want,
+                                                                                   short(sl.value, 40), short(res_vals.get(want), 40)), sl.line)
+    chk.control('C13.config-wiring', crossed('forbidden_suffix_markers', 'ForbiddenPrefixMarkers', ['forbidden_prefix_markers', 'forbidden_suffix_markers'],
+                                             {'ForbiddenPrefixMarkers': [',', ':'], 'ForbiddenSuffixMarkers': ['/', '+']}, [',', ':']) == 'ForbiddenSuffixMarkers'
+                and crossed('ipv4_regex', 'Ipv4Regex', ['ipv4_regex', 'ipv6_regex'], {'Ipv4Regex': 'a', 'Ipv6Regex': 'b'}, 'a') is None)
+
+
+_run_before_config_wiring = run
+
+
+def run(chk):       # noqa: F811
+    _run_before_config_wiring(chk)
+    rule_config_wiring(chk)
+
+
+# ---------------------------------------------------------------------------------------------------------------
+# C13.ip.context (round 6): the IP extractor as a whole, tabulated.  The registered extractor class is instantiated and its
+# extract() interpreted (sa/ointerp.py; re.finditer is answered by the standard library `re` on the evaluated pattern text)
+# on complete addresses embedded in punctuation / spaces / sentence ends.  Required: exactly one entity, the address itself,
+# at its offset.  (Span exactness next to further digits or letters is not part of this rule.)
+
+IP_ADDRESSES = ['10.0.0.1', '255.255.255.255', '0.0.0.0', '192.168.001.010', '::1', 'fe80::1:2', '1:2:3:4:5:6:7:8', '1::']
+IP_CONTEXTS = [('', ''), ('', '.'), ('', '. '), ('', '. Next'), ('the gateway is ', '.'), ('', ','), ('', ', x'), ('(', ')'), ('x ', ' y'),
+               ('', '!'), ('', '?'), ('ip: ', ''), ('', ';'), ('"', '"'), ('', '.\n'), ('see ', ').')]
+
+
+def rule_ip_context(chk):
+    import re as _re
+    from ..ointerp import FuncRef, Native, PyExc, native
+    from .c03 import super_interp_class
+    ev = Ev()
+    idx = ev.idx
+    chk.rule('C13.ip.context', 'a complete IP address surrounded by punctuation, spaces or the end of the text is extracted as one '
+                               'entity with its exact span (extract() tabulated)', floor=2, control=True)
+    SI = super_interp_class()
+    compiled = {}
+
+    def mk_match(m):
+        return Native({'start': native(lambda it, a, k: m.start() if not a else m.start(*a)), 'end': native(lambda it, a, k: m.end() if not a else m.end(*a)),
+                       'group': native(lambda it, a, k: m.group(*a)), 'span': native(lambda it, a, k: (m.start(), m.end())),
+                       'string': m.string}, 'match%r' % (m.span(),))
+
+    def finditer(it, args, kw):
+        p, s = args[0], args[1]
+        if not isinstance(p, str):
+            raise AnalysisError('C13.ip.context: finditer over %r, not a pattern text' % (p,))
+        if p not in compiled:
+            try:
+                compiled[p] = _re.compile(p, _re.I | _re.S)
+            except _re.error as e:
+                raise AnalysisError('C13.ip.context: pattern not usable with the standard library re (%s)' % e)
+        return [mk_match(m) for m in compiled[p].finditer(s)]
+    hooks = {'regex.finditer': finditer, 're.finditer': finditer}
+
+    def run_extract(ecls, fn_owner, fn, cfgn, text):
+        it = SI(idx, hooks=hooks, where='%s.extract' % ecls.name, budget=600000)
+        ex = it.instantiate(ecls, [cfgn], {}, None)
+        out = it.call_function(FuncRef(fn_owner.mod, fn, fn_owner), [text], {}, selfobj=ex)
+        return [(o.attrs.get('text'), o.attrs.get('start'), o.attrs.get('length')) for o in out]
+    seen = set()
+    for r in registrations(ev, SEQ_RECOGNIZER):
+        e = r.args.get('extractor')
+        if r.model_cls.name != 'IpAddressModel' or not (isinstance(e, ast.Call) and e.args and isinstance(e.args[0], ast.Call)):
+            continue
+        ecls, ccls = idx.resolve_class(r.mod, e.func), idx.resolve_class(r.mod, e.args[0].func)
+        if ecls is None or ccls is None or ccls.qual in seen:
+            continue
+        seen.add(ccls.qual)
+        table = {}
+        for rv in extractor_closure(ev, ecls):
+            if rv.kind == 'config':
+                v = slot(ev, ccls, rv.name).value
+                if not isinstance(v, str):
+                    raise AnalysisError('%s.%s is not a pattern text' % (ccls.name, rv.name))
+                table[rv.name] = v
+        if not table:
+            raise AnalysisError('%s: no configuration pattern wired' % ecls.name)
+        cfgn = Native(table, '%s()' % ccls.name)
+        k, fn = idx.find_method(ecls, 'extract')
+        chk.consulted(k.mod.path)
+        bad, n = [], 0
+        for a in IP_ADDRESSES:
+            for pre, suf in IP_CONTEXTS:
+                text = pre + a + suf
+                n += 1
+                try:
+                    got = run_extract(ecls, k, fn, cfgn, text)
+                except PyExc as ex:
+                    bad.append('%r raises %s' % (text, ex))
+                    continue
+                if got != [(a, len(pre), len(a))]:
+                    bad.append('%r -> %s' % (text, [g[0] for g in got]))
+        chk.judge(not bad, 'C13.ip.context', k.mod.path, '%s.extract under %s' % (ecls.name, ccls.name),
+                  '%d texts (%d addresses x %d contexts), %d wrong%s' % (n, len(IP_ADDRESSES), len(IP_CONTEXTS), len(bad),
+                                                                        (': ' + '; '.join(bad[:6])) if bad else ''),
+                  '%s.extract (with %s) does not return the embedded address as one entity: %s (%d of %d texts)'
+                  % (ecls.name, ccls.name, '; '.join(bad[:5]), len(bad), n), fn.lineno)
+    if not seen:
+        raise AnalysisError('no IP registration found')
+    from ..index import Cls
+    em = idx.mod(SEQ_EXTRACTORS)
+    ctl = Cls(em, ast.parse("class X:\n    def __init__(self, config):\n        self.config = config\n    def extract(self, source):\n"
+                            "        out = []\n        for m in re.finditer(self.config.ipv4_regex, source):\n"
+                            "            if m.end() < len(source) and source[m.end()] == '.':\n                continue\n"
+                            "            r = ExtractResult()\n            r.start = m.start()\n            r.length = m.end() - m.start()\n"
+                            "            r.text = m.group()\n            out.append(r)\n        return out\n").body[0])
+    cn = Native({'ipv4_regex': '\\b\\d+\\.\\d+\\.\\d+\\.\\d+\\b'}, 'control')
+    chk.control('C13.ip.context', run_extract(ctl, ctl, ctl.methods['extract'], cn, '10.0.0.1.') == []
+                and run_extract(ctl, ctl, ctl.methods['extract'], cn, '10.0.0.1') == [('10.0.0.1', 0, 8)])
+
+
+_run_before_ip_context = run
+
+
+def run(chk):       # noqa: F811
+    _run_before_ip_context(chk)
+    rule_ip_context(chk)
